@@ -442,7 +442,12 @@ impl<'tcx> Cx<'tcx> {
                     v.push(("e", self.expr(x)));
                 }
             }
-            hir::ExprKind::Continue(_) => k = "Continue",
+            hir::ExprKind::Continue(dest) => {
+                k = "Continue";
+                if let Ok(t) = dest.target_id {
+                    v.push(("target", J::Num(t.local_id.as_u32() as i128)));
+                }
+            }
             hir::ExprKind::Ret(x) => {
                 k = "Ret";
                 if let Some(x) = x {
